@@ -24,13 +24,14 @@ PROP = dict(
         "Comdex.C10.price_in_band_every_reachable_state", "Comdex.C10.esm_leaves_nonvault_auction_untouched_past_end",
         "Comdex.C10.trigger_esm_moves", "Comdex.C10.esm_trigger_repeats_counterexample", "Comdex.C10.debt_custody_every_history",
         "Comdex.C10.vault_close_distributes", "Comdex.C10.external_close_distributes", "Comdex.C10.lend_close_distributes",
+        "Comdex.C10.l1_close_distributes_all",
     ],
     harness_tests=["TestC10"],
     monitors=["pay_le_target", "receive_le_collateral", "books_exact", "close_distributes", "posted_price", "price_monotone", "price_in_range",
               "price_in_range_slack", "price_below_end_at_T", "start_price", "start_record", "reserve_draw_skipped", "limit_fill_overcharge",
               "proceeds_forwarded", "lend_bonus_stranded", "leftover_to_owner", "bid_refused", "leftover_to_owner_after_d7",
               "books_exact_after_d7", "pay_le_target_after_d7", "receive_le_collateral_after_d7", "close_distributes_after_d7",
-              "esm_payout_le_proceeds", "close_distributes_after_esm_trigger", "leftover_to_owner_after_esm_trigger"],
+              "esm_payout_le_proceeds", "close_distributes_after_esm_trigger", "leftover_to_owner_after_esm_trigger", "lend_close_books"],
     trusted_base=[KERNEL_TB, HARNESS_TB,
                   "Base/Dec.lean (model of sdk.Dec, validated separately against the real library by harness/dec_test.go)",
                   "Model/DutchPrice.lean is hand-written from x/auction/keeper/math.go:11-31 + dutch.go:495-503,639-656 and "
